@@ -20,7 +20,8 @@ M = 'cell_type_mapper.utils.csc_to_csr_parallel.'
 
 contract(
     M + '_transpose_sparse_matrix_on_disk_v2#layout',
-    properties=['C13'],
+    # C11 / C12: the gene-major tables of the reference marker file are produced by this join
+    properties=['C13', 'C11'],
     mode='slice', unexpected_exceptions='allowed',
     ghost=dict(h5_shapes=True),
     assumptions=['A-H5SHAPE: entries of h5py dataset shapes are non-negative integers; the members '
